@@ -5,6 +5,7 @@ import GoSQLXModel.Driver.ScanOp
 import GoSQLXModel.Driver.ExtractOp
 import GoSQLXModel.Driver.LexOp
 import GoSQLXModel.Driver.ExprOp
+import GoSQLXModel.Driver.PrintOp
 /-! Dispatch table of the line-protocol driver. Each op parses its payload, runs the executable
     model and prints a canonical one-line answer. -/
 namespace GoSQLXModel.Driver
@@ -19,6 +20,7 @@ def dispatch (op payload : String) : String :=
   | "extract" => extractOp payload
   | "lex" => lexOp payload
   | "expr" => exprOp payload
+  | "print" => printOp payload
   | _ => "bad-op"
 
 end GoSQLXModel.Driver
